@@ -46,7 +46,20 @@ def mark(spike_text, repo_file, path, spike_path=None, subst=None):
         if 0 < len(tk) <= 3:
             k = '%d|%s' % (len(ln) - len(ln.lstrip()), k)
         return k
-    skey = [key(ln, tk) for (ln, tk) in S_lines]
+    import re as _re
+    forced = set()
+    k = 0
+    while k < len(S_lines):
+        st_ = S_lines[k][0].strip()
+        if _re.match(r'(requires|ensures|invariant|invariant_except_break|decreases|recommends)\b', st_) and not st_.endswith('{'):
+            j = k
+            while j < len(S_lines) and S_lines[j][0].strip() != '{':
+                forced.add(j)
+                j += 1
+            k = j
+        else:
+            k += 1
+    skey = [('\x00ANN%d' % i) if i in forced else key(ln, tk) for i, (ln, tk) in enumerate(S_lines)]
     ckey = [key(ln, tk) for (ln, tk) in C_lines]
     sm = difflib.SequenceMatcher(a=skey, b=ckey, autojunk=False)
     out = ['//@extract %s :: %s' % (repo_file, path)]
@@ -75,7 +88,7 @@ def mark(spike_text, repo_file, path, spike_path=None, subst=None):
                     (block if (not tk and block) else out).append(ln)
             continue
         # token-level alignment inside the stretch
-        st = [(k, t) for k in range(i1, i2) for t in S_lines[k][1]]
+        st = [(k, t) for k in range(i1, i2) if k not in forced for t in S_lines[k][1]]
         ct = [t[1] for k in range(j1, j2) for t in C_lines[k][1]]
         sm2 = difflib.SequenceMatcher(a=[t[1][1] for t in st], b=ct, autojunk=False)
         matched = [False] * len(st)
@@ -95,6 +108,9 @@ def mark(spike_text, repo_file, path, spike_path=None, subst=None):
         idx = 0
         for k in range(i1, i2):
             ln, tk = S_lines[k]
+            if k in forced:
+                block.append(ln)
+                continue
             n = len(tk)
             flags = matched[idx:idx + n]
             idx += n
